@@ -110,7 +110,7 @@ Proof.
     destruct (a_rec anc) as [v|] eqn:E; inversion H; subst.
     eexists; split; [reflexivity|]. split; [repeat split; auto|auto].
   - (* SCallClosure *)
-    destruct (a_locked anc); inversion H; subst.
+    inversion H; subst.
     eexists; split; [reflexivity|]. split; [repeat split; auto|tauto].
   - (* SReturn *)
     destruct z; inversion H; subst; (eexists; split; [try rewrite <- Hv; reflexivity|]; split; [repeat split; cbn; auto|tauto]).
@@ -291,8 +291,7 @@ Definition C06_statement : Prop :=
 
 (** decidable side condition: no deferred call panics while other deferred calls of its activation
     remain, no variable passed to a deferred call changes before the call, no re-panicked recovered
-    value is displayed, no recover site runs twice after a recovery, no closure of an activation is
-    called by its own deferred calls, no forward-declared function is deferred in a literal. *)
+    value is displayed, no recover site runs twice after a recovery, no forward-declared function is deferred in a literal. *)
 Definition c06_side (fuel : nat) (p : prog) : bool := negb (snd (y_run fuel p)).
 
 Theorem partial_agreement fuel p : c06_side fuel p = true -> fst (y_run fuel p) = g_run fuel p.
@@ -577,14 +576,22 @@ Theorem recover_stale_refuted :
   /\ fst (y_run 5 w_recover_stale) = ([ERec (ShBase (BInt 7)); ERec (ShBase (BInt 7))], FinOk).
 Proof. vm_compute. split; reflexivity. Qed.
 
-(** g := func() {...}; defer func() { g() }(): Go returns, yaegi never does *)
+(** g := func() {...}; defer func() { g() }(): the finding "closure-lock" (yaegi never returned: the
+    closure took the mutex that runCfg holds) was repaired in /repo by abe7a69; regression theorems:
+    the former witness now runs in Y as in G, inside the side condition, and no call of a closure
+    hangs whatever the state of the lock. *)
 Definition w_closure_lock : prog :=
   mkprog false [(KNamed, [SDefer 1 (AConst 0); SPrint 1 None]); (KLit, [SCallClosure 2; SPrint 3 None])].
 
-Theorem closure_lock_refuted :
+Theorem closure_lock_regression :
   g_run 5 w_closure_lock = ([EPrint 1 None; EClo 2; EPrint 3 None], FinOk)
-  /\ fst (y_run 5 w_closure_lock) = ([EPrint 1 None; EClo 2], FinHang).
-Proof. vm_compute. split; reflexivity. Qed.
+  /\ fst (y_run 5 w_closure_lock) = ([EPrint 1 None; EClo 2; EPrint 3 None], FinOk)
+  /\ c06_side 5 w_closure_lock = true.
+Proof. vm_compute. repeat split. Qed.
+
+Theorem closure_call_never_hangs p cy self t f anc :
+  y_stmt p cy self (SCallClosure t) f anc = (f, anc, [EClo t], false, Fall).
+Proof. reflexivity. Qed.
 
 (** func() { defer later() }() with later declared further down: Go runs it, yaegi does not *)
 Definition w_forward_lit : prog :=
